@@ -68,6 +68,36 @@ theorem C11_exit_stops_scheduler (sliceLen fuel : Nat) (ctxs : List Ctx) (i : Na
   rw [sched]
   simp [hne, hc, ht, hex, finishStart]
 
+/-- a run in which the scripts only sleep executes no instruction, and still obeys the limit: when the
+scheduler passes over a script that is asleep past the deadline it reports `MaximumRuntimeReached` and
+requests the exit (which, by `C11_exit_stops_scheduler`, empties the VM) -/
+theorem C11_sleeping_obeys_deadline (sliceLen : Nat) (c : Ctx) (m : M) (hs : c.suspended = true)
+    (hw : m.now < c.wakeup) (hmax : m.maxRuntime ≠ 0) (hpast : m.runStart + m.maxRuntime < m.now) :
+    (schedOne sliceLen c m).2 = .runtimeError ∧ (schedOne sliceLen c m).1.exitReq = true ∧
+      (schedOne sliceLen c m).1.err = false ∧ Logged (schedOne sliceLen c m).1 Diag.runtime_MaximumRuntimeReached := by
+  have h1 : (m.maxRuntime != 0) = true := by simpa using hmax
+  have h2 : ¬ c.wakeup ≤ m.now := by omega
+  unfold schedOne
+  simp only [hs, if_true, M.readClock, h2, if_false, h1, Bool.true_and, decide_eq_true_eq, hpast]
+  refine ⟨trivial, trivial, trivial, ?_⟩
+  unfold Logged M.log
+  simp only
+  split <;> exact ⟨{ code := Diag.runtime_MaximumRuntimeReached, level := levelOf Diag.runtime_MaximumRuntimeReached }, by simp, rfl⟩
+
+/-- … and a sleeping script is otherwise left alone: before the deadline (or without a limit) nothing of it
+executes and nothing is reported -/
+theorem C11_sleeping_before_deadline (sliceLen : Nat) (c : Ctx) (m : M) (hs : c.suspended = true)
+    (hw : m.now < c.wakeup) (hin : m.maxRuntime = 0 ∨ m.now ≤ m.runStart + m.maxRuntime) :
+    (schedOne sliceLen c m).2 = .ok ∧ (schedOne sliceLen c m).1.diags = m.diags ∧
+      (schedOne sliceLen c m).1.exitReq = m.exitReq ∧ (schedOne sliceLen c m).1.ctx = c := by
+  have h2 : ¬ c.wakeup ≤ m.now := by omega
+  unfold schedOne
+  simp only [hs, if_true, M.readClock, h2, if_false]
+  rcases hin with h | h
+  · simp [h]
+  · have : ¬ (m.runStart + m.maxRuntime < m.now) := by omega
+    simp [this]
+
 /-! ## 2. The budget belongs to the run -/
 
 /-- every `execute(start)` measures the limit from its own start: the age of the VM is irrelevant -/
